@@ -64,6 +64,8 @@ def _tree(val: Optional[str], where: int, fld: int, has_dir: bool):
     ul.prefix = "stmml"
     ul.add_extras("xsi:schemaLocation", "a b")
     sur.tail = "t"
+    title.prefix = ""                       # empty string, not None
+    org.prefix = " "
     target = nodes(eml)[WHERE[where % 4]]
     if fld == 0:
         if target.name in ("title", "surName", "organizationName", "userId", "unitList"):
